@@ -3,5 +3,5 @@
 cd /verif/mc && cargo build --release --offline -p c00 2>&1 | grep -E "^error" -A8
 fail=0
 t() { want="$2"; out=$(MC_SELFTEST="$1" MC_KF=/dev/null /verif/target/release/c00 --no-evidence --workers 4 2>&1); rc=$?; line=$(echo "$out" | grep -E "VIOLATION|MACHINERY" | head -2 | tr '\n' ' ' | cut -c1-200); if [ $rc -eq $want ]; then echo "ok   $1 -> exit $rc   $line"; else echo "FAIL $1 -> exit $rc (want $want)  $out"; fail=1; fi; }
-t ok 0; t viol 1; t hang 1; t abort 1; t oom 1; t diverge 2; t vacuous 2; t flaky 2
+t ok 0; t viol 1; t hang 1; t abort 1; t oom 1; t diverge 2; t vacuous 2; t flaky 1; t ghost 2
 exit $fail
